@@ -21,72 +21,45 @@ RULES_GETTER = {"WireServer": "get_wireserver_rules", "GAPlugin": "get_hostga_ru
 
 
 def elevation_first(F, R, name):
+    """decision table of the authorizer (helpers inlined, constant arguments evaluated): not elevated => Forbidden on every path"""
     fn = R.anchor(impl(name), "C03.R1")
     if not fn:
         return
-    B = mir.Body(fn, F)
     fid = fn["id"]
-    # the switch on self.claims.runAsElevated
-    cands = []
-    for sb in B.switch_blocks():
-        e, tr, fa = B.truth_edges(sb)
-        if e[0] == "op" and e[1]["k"] in ("copy", "move"):
-            org = B.origins(e[1])
-            if any(o[0] == "param" and o[1] == "self" and tuple(o[2]) == ("claims", "runAsElevated") for o in org):
-                cands.append((sb, tr, fa))
-    if not cands:
-        R.fail("C03.R1", "C03.R1:%s:elevation-test-missing" % fid, "%s:%s" % (fn["file"], fn["line"]),
-               "%s::authorize has no branch on self.claims.runAsElevated" % name)
-        return
-    elevated_edges = {c[1] for c in cands}
-    allowed_blocks = [c[0] for c in B.calls_named("ComputedAuthorizationItem::is_allowed")]
-    ok_assign = []
-    for bi, b in enumerate(B.blocks):
-        if b["cleanup"]:
-            continue
-        for s in b["stmts"]:
-            if s["k"] == "assign" and s["lhs"]["l"] == 0:
-                v = s["rv"].get("variant") if s["rv"]["k"] == "agg" else "<non-constant>"
-                if v != "Forbidden":
-                    ok_assign.append(bi)
-        t = b["term"]
-        if t["k"] == "call" and t["dest"]["l"] == 0:
-            ok_assign.append(bi)
-    # reads of the rules before the test / on the non-elevated side
-    rule_reads = []
-    for bi, b in enumerate(B.blocks):
-        if b["cleanup"]:
-            continue
-        for s in b["stmts"]:
-            if s["k"] == "assign":
-                for pl in mir.places_in_rvalue(s["rv"]):
-                    if B.locals[pl["l"]].get("name") == "access_control_rules":
-                        rule_reads.append(bi)
-    wh = q.where(B, cands[0][0])
-    r = B.reach([0], cut_edges=elevated_edges)
-    p1 = B.path([0], ok_assign, cut_edges=elevated_edges)
-    R.check(p1 is None, "C03.R1", "C03.R1:%s:non-elevated-only-forbidden" % fid, wh,
-            "%s: without crossing the 'elevated' edge no result other than Forbidden can be produced "
-            "(%d non-Forbidden result sites, all behind the edge)" % (name, len(set(ok_assign))),
-            "%s: a non-Forbidden result is reachable for a non-elevated caller" % name,
-            witness={"path_lines": B.path_lines(p1)} if p1 else None)
-    p2 = B.path([0], allowed_blocks + rule_reads, cut_edges=elevated_edges)
-    R.check(p2 is None and allowed_blocks, "C03.R1", "C03.R1:%s:rules-not-consulted-before-elevation" % fid, wh,
-            "%s: neither is_allowed() nor any read of the rules is reachable without crossing the 'elevated' edge" % name,
-            "%s: the rules are consulted before / without the elevation test" % name,
-            witness={"path_lines": B.path_lines(p2)} if p2 else None)
-    # full path table (small, loop-free)
+    wh = "%s:%s" % (fn["file"], fn["line"])
     try:
-        ps = paths.enumerate_paths(B)
-        for p in ps:
-            atoms = paths.path_atoms(B, F, p)
-            res = paths.returned_variant(B, p)
-            elev = [a for a in atoms if "runAsElevated" in a[0]]
-            if elev and elev[0][1] is False:
-                R.check(res == "Forbidden", "C03.R1", R.key("C03.R1", fid, "path-non-elevated"), wh,
-                        "path %s => %s" % (atoms, res))
+        rows = paths.decision_rows(F, fid)
     except (paths.HasLoop, paths.TooManyPaths) as e:
         R.fail("C03.R1", "C03.R1:%s:not-analysable" % fid, wh, "authorize left the loop-free fragment: %s" % e)
+        return
+    if not rows:
+        R.fail("C03.R1", "C03.R1:%s:not-analysable" % fid, wh, "no decision rows could be derived for %s::authorize" % name)
+        return
+    n_bad = 0
+    seen_nonelev = False
+    for atoms, res in rows:
+        elev = [v for d, v in atoms if "runAsElevated" in d]
+        known = isinstance(res, str)
+        if not known:
+            n_bad += 1
+            R.fail("C03.R1", R.key("C03.R1", fid, "row-unresolved"), wh,
+                   "%s: a path returns %s, which the analysis cannot resolve to an AuthorizeResult variant" % (name, res))
+            continue
+        if res != "Forbidden" and not (elev and all(v is True for v in elev)):
+            n_bad += 1
+            R.fail("C03.R1", R.key("C03.R1", fid, "non-forbidden-without-elevation"), wh,
+                   "%s: a path returns %s without having established runAsElevated == true: %s" % (name, res, atoms))
+        if any(v is False for v in elev):
+            seen_nonelev = True
+            if res != "Forbidden":
+                pass  # already reported above
+    R.check(seen_nonelev, "C03.R1", "C03.R1:%s:non-elevated-row" % fid, wh,
+            "%s has a decision row for the non-elevated caller" % name, "%s never tests claims.runAsElevated" % name)
+    if not n_bad:
+        R.ok("C03.R1", "C03.R1:%s:non-elevated-only-forbidden" % fid, wh,
+             "%s: in all %d decision rows (helpers inlined) every result other than Forbidden requires runAsElevated == true; "
+             "the non-elevated rows return Forbidden whatever the rules, mode or URL" % (name, len(rows)),
+             witness={"rows": [[list(map(list, a)), str(r)] for a, r in rows][:8]})
 
 
 def run(F, R, tier):
